@@ -385,9 +385,12 @@ class Translator:
             at = B(f"is:{self.key(a)}|{self.key(b)}")
             return at if pos else Not(at)
         if isinstance(op, (ast.In, ast.NotIn)) and isinstance(b, (ast.Tuple, ast.List, ast.Set)) and 1 <= len(b.elts) <= 6 \
-                and all(isinstance(x, ast.Constant) for x in b.elts):
-            # x in ("a", "b")  <=>  x == "a" or x == "b"
-            d = Or(*[self.cmp(a, ast.Eq(), x) for x in b.elts])
+                and (all(isinstance(x, ast.Constant) for x in b.elts) or
+                     (len(b.elts) <= 3 and any(isinstance(x, ast.Constant) and x.value is None for x in b.elts)
+                      and not any(isinstance(x, ast.Starred) for x in b.elts))):
+            # x in ("a", "b")  <=>  x == "a" or x == "b";   x in (None, v)  <=>  x is None or x == v
+            d = Or(*[self.cmp(a, ast.Is(), x) if isinstance(x, ast.Constant) and x.value is None else self.cmp(a, ast.Eq(), x)
+                     for x in b.elts])
             return d if isinstance(op, ast.In) else Not(d)
         if isinstance(op, (ast.In, ast.NotIn)):
             at = B(f"in:{self.key(a)}|{self.key(b)}")
